@@ -44,7 +44,7 @@ type shardSpec struct {
 const rule = "a case is one history: 1-3 resources (identifiers with/without directories and extensions), 0-2 indexes (AutoDownload, PreRelease), " +
 	"registry flags Online/DevMode/UsePreReleases, 1-13 versions per resource drawn from a small pool (stable, pre-release tags, dev 0.0.0, re-added with other flags, unordered; " +
 	"1 in 12 histories also uses non-canonical spellings; in 1 of 4 multi-resource histories two resources are an identifier pair (x, x.zip) / (x.tar, x.tar.gz) / (x, x.gz) / (x.mmdb, x.mmdb.gz) with overlapping version sets), then 8-40 operations from {AddResource, SelectVersions, GetFile, Blacklist(any listed / the selected version), " +
-	"flag changes, Index.AutoDownload changes, Purge(keep -1..5), ScanStorage, GetSelectedVersions, AddResource with an invalid version}; after every operation the exported registry " +
+	"flag changes, Index.AutoDownload changes, Purge(keep -1..5), ScanStorage(full / a sub-directory as root), AddResources (an index announcing the current release of several identifiers; repeated by other indexes), GetSelectedVersions, AddResource with an invalid version}; after every operation the exported registry " +
 	"state (versions+flags, selected, active), GetVersion, the results of GetFile/Blacklist and the storage directory listing are compared with the reference model. " +
 	"distinct = distinct operation scripts; every history is non-trivial (at least one selection is compared). " +
 	"Plus concurrent rounds: one resource with 6-10 available versions, one goroutine calling GetFile 10000 (quick) or 20000 (thorough) times while 1-3 goroutines move the selection between the oldest and newest version (AddResource(currentRelease)+SelectVersions), then settle on the newest, Purge(keep -1..3) and check the file of the version handed out last. Plus file-name cases: generated (identifier, version) pairs / versioned paths of the documented format (marker in the file name; directory components free, including version-like text equal to, extending or differing from the file's marker), both round-trip directions"
@@ -98,6 +98,9 @@ func main() {
 		rep.Floor(rep.Counter("purge_resources_with_removals") >= q(300, 6000), "purges that removed files=%d", rep.Counter("purge_resources_with_removals"))
 		rep.Floor(rep.Counter("purge_unpacked_path_is_file_of_sibling_resource") >= q(30, 400),
 			"purges whose unpacked path is the file of a sibling resource (x / x.zip)=%d", rep.Counter("purge_unpacked_path_is_file_of_sibling_resource"))
+		rep.Floor(rep.Counter("scan_partial_files_registered") >= q(300, 3000), "files registered by partial rescans=%d", rep.Counter("scan_partial_files_registered"))
+		rep.Floor(rep.Counter("announce_same_current_release_by_index_with_other_autodownload") >= q(100, 1000),
+			"same current release announced by an index with another AutoDownload=%d", rep.Counter("announce_same_current_release_by_index_with_other_autodownload"))
 		rep.Floor(rep.Counter("blacklist_accepted") >= q(500, 10000) && rep.Counter("blacklist_refused_last_version") >= q(100, 2000),
 			"blacklist accepted=%d refused-last=%d", rep.Counter("blacklist_accepted"), rep.Counter("blacklist_refused_last_version"))
 		rep.Floor(rep.Counter("getfile_local") >= q(2000, 40000) && rep.Counter("getfile_not_available") >= q(40, 800) && rep.Counter("getfile_downloaded") >= q(50, 1000),
